@@ -14,7 +14,7 @@ TECHNIQUE = 'loop summaries (nested trip counts, single carried generator) + eff
 
 def run(ctx):
     A = 'core::_init'
-    b = ctx.anchor(A, path='core::_init')
+    b = ctx.helper('core._init')
     bw = ctx.anchor('core::init_with_seed', path='core::init_with_seed')
     bd = ctx.anchor('core::init_det', path='core::init_det')
     bi = ctx.anchor('core::init', path='core::init')
@@ -58,7 +58,8 @@ def run(ctx):
 
 def shape_sig(ctx, ev):
     """(outer trip count, inner trip count, draws per element) of the nested construction loops"""
-    outer = [ls for ls in ev.vf.loops if ls.kind == 'forced' and not ls.ctx and (ls.owner or '').endswith('_init')]
+    ik = ctx.helper_key('core._init', 'core::_init')
+    outer = [ls for ls in ev.vf.loops if ls.kind == 'forced' and not ls.ctx and (ls.owner or '') == ik]
     if len(outer) != 1:
         return ('?',)
     inner = [ls for ls in ev.vf.loops if ls.ctx == (outer[0].uid,) and ls.kind == 'forced']
